@@ -253,6 +253,53 @@ impl Conn {
     }
 }
 
+impl Conn {
+    /// Send a request and read only the response head (for streaming responses).
+    pub fn start(&mut self, req: &Req) -> Resp {
+        let mut resp = Resp::default();
+        if let Err(e) = self.s.write_all(&encode(req)) {
+            resp.error = Some(format!("write: {}", e));
+            return resp;
+        }
+        let deadline = Instant::now() + Duration::from_secs(10);
+        let find = |b: &[u8]| b.windows(4).position(|w| w == b"\r\n\r\n");
+        if let Err(e) = self.fill_until(deadline, |b| find(b).is_some()) {
+            resp.error = Some(format!("no response head: {}", e));
+            return resp;
+        }
+        let hend = find(&self.buf).unwrap();
+        let head = String::from_utf8_lossy(&self.buf[..hend]).to_string();
+        self.buf.drain(..hend + 4);
+        let mut lines = head.split("\r\n");
+        resp.status = lines.next().unwrap_or("").split(' ').nth(1).and_then(|s| s.parse().ok()).unwrap_or(0);
+        for l in lines {
+            if let Some((k, v)) = l.split_once(':') {
+                resp.headers.push((k.trim().to_ascii_lowercase(), v.trim().to_string()));
+            }
+        }
+        resp
+    }
+
+    /// Next chunk of a chunked streaming body; None on timeout / end.
+    pub fn next_chunk(&mut self, deadline: Instant) -> Option<Vec<u8>> {
+        if self.fill_until(deadline, |b| b.windows(2).any(|w| w == b"\r\n")).is_err() {
+            return None;
+        }
+        let le = self.buf.windows(2).position(|w| w == b"\r\n").unwrap();
+        let size = usize::from_str_radix(String::from_utf8_lossy(&self.buf[..le]).split(';').next().unwrap_or("").trim(), 16).ok()?;
+        self.buf.drain(..le + 2);
+        if self.fill_until(deadline, |b| b.len() >= size + 2).is_err() {
+            return None;
+        }
+        let out: Vec<u8> = self.buf.drain(..size).collect();
+        self.buf.drain(..2);
+        if size == 0 {
+            return None;
+        }
+        Some(out)
+    }
+}
+
 pub fn once(sock: &std::path::Path, req: &Req) -> Resp {
     match Conn::open(sock) {
         Ok(mut c) => c.roundtrip(req, None),
